@@ -23,7 +23,7 @@ Proof. exact world_reset_abs. Qed.
 
 
 Theorem C15_reset_refines : forall w,
-  rwi w -> w_listener w = None ->
+  rwi w ->
   R (world_reset w) (mkAS [] [] [] (w_reg w)) /\ cache_ok (world_reset w) /\ rwi (world_reset w).
 Proof. exact reset_refines. Qed.
 
@@ -44,8 +44,8 @@ Theorem C15_reset_like_new : forall w A,
   R (world_reset w) (mkAS [] [] [] (as_reg A)) /\ cache_ok (world_reset w).
 Proof.
   intros w A HR C. assert (I : rwi w).
-  { pose proof HR as [[[S G] _ _] _ _ _ _]. split; [done| |done]. intros tid t Ht. by apply (so_table _ _ S tid). }
-  destruct (reset_refines w I (r_nolistener _ _ HR)) as (HR0 & C0 & _). by rewrite (r_reg _ _ HR).
+  { pose proof HR as [[[S G] _ _] _ _ _]. split; [done| |done]. intros tid t Ht. by apply (so_table _ _ S tid). }
+  destruct (reset_refines w I) as (HR0 & C0 & _). by rewrite (r_reg _ _ HR).
 Qed.
 
 Example C15_nonvacuous : pre_run3 (world_init 4 4 64) a_init demo_reset_ops.
